@@ -423,5 +423,6 @@ pub fn run(args: &Args, rep: &mut Report) {
         }
     }
     rep.count("histories", case);
+    rep.count("sync_hook_events", crate::hooks::SYNCED_EVENTS.load(std::sync::atomic::Ordering::Relaxed));
     let _ = (Exp::Any, None::<MEvent>);
 }
